@@ -20,3 +20,77 @@ type Extend struct {
 	// Adds are the additions to a type.
 	Adds Type
 }
+
+// extendUndo returns a function that puts a type back to how it is now. Extend
+// modifies a type in place so when a load that extends existing types fails
+// the extensions have to be taken out again.
+func extendUndo(t Type) func() {
+	undoFields := func(fl *fieldList) func() {
+		n := len(fl.list)
+		return func() {
+			for _, f := range fl.list[n:] {
+				delete(fl.dict, f.N)
+			}
+			fl.list = fl.list[:n]
+		}
+	}
+	undoBase := func(b *Base) func() {
+		dirs := b.Dirs
+		return func() { b.Dirs = dirs }
+	}
+	switch tt := t.(type) {
+	case *Object:
+		uf := undoFields(&tt.fields)
+		ub := undoBase(&tt.Base)
+		infs := tt.Interfaces
+		return func() {
+			uf()
+			ub()
+			tt.Interfaces = infs
+		}
+	case *Schema:
+		uf := undoFields(&tt.fields)
+		ub := undoBase(&tt.Object.Base)
+		return func() {
+			uf()
+			ub()
+		}
+	case *Interface:
+		uf := undoFields(&tt.fields)
+		ub := undoBase(&tt.Base)
+		return func() {
+			uf()
+			ub()
+		}
+	case *Input:
+		n := len(tt.fields.list)
+		ub := undoBase(&tt.Base)
+		return func() {
+			for _, f := range tt.fields.list[n:] {
+				delete(tt.fields.dict, f.N)
+			}
+			tt.fields.list = tt.fields.list[:n]
+			ub()
+		}
+	case *Enum:
+		n := len(tt.values.list)
+		ub := undoBase(&tt.Base)
+		return func() {
+			for _, ev := range tt.values.list[n:] {
+				delete(tt.values.dict, string(ev.Value))
+			}
+			tt.values.list = tt.values.list[:n]
+			ub()
+		}
+	case *Union:
+		members := tt.Members
+		ub := undoBase(&tt.Base)
+		return func() {
+			tt.Members = members
+			ub()
+		}
+	case *Scalar:
+		return undoBase(&tt.Base)
+	}
+	return func() {}
+}
